@@ -169,9 +169,40 @@ Qed.
 (* the whole check_case oracle accepts the model's own observables *)
 Theorem model_case_ok : forall ver h nft enabled,
   snd (check_case {| c_ver := ver; c_ops := h; c_outs := run ver init h; c_nft := nft; c_offload := enabled;
-                     c_rules := static_offload_rules nft enabled |}) = true.
+                     c_rules := static_offload_rules nft enabled; c_limits := [] |}) = true.
 Proof.
-  intros ver h nft enabled. unfold check_case. cbn [snd c_ver c_ops c_outs c_rules].
+  intros ver h nft enabled. unfold check_case. cbn [snd c_ver c_ops c_outs c_rules c_limits].
   rewrite model_meets_spec. unfold static_offload_rules. destruct (nft && enabled); [|reflexivity].
   destruct ver; vm_compute; reflexivity.
+Qed.
+
+(* ------------------------------------------------------------------ the member multiset does not depend on the iteration order *)
+Lemma insert_sorted_comm : forall x y l, insert_sorted x (insert_sorted y l) = insert_sorted y (insert_sorted x l).
+Proof.
+  intros x y l. induction l as [|z l IH]; cbn [insert_sorted].
+  - destruct (N.leb_spec x y), (N.leb_spec y x); try reflexivity; try lia.
+    assert (x = y) by lia. subst. reflexivity.
+  - destruct (N.leb_spec y z) as [Hyz|Hyz], (N.leb_spec x z) as [Hxz|Hxz]; cbn [insert_sorted].
+    + destruct (N.leb_spec x y), (N.leb_spec y x), (N.leb_spec x z), (N.leb_spec y z); try reflexivity; try lia.
+      assert (x = y) by lia. subst. reflexivity.
+    + destruct (N.leb_spec x y), (N.leb_spec y z), (N.leb_spec x z); try reflexivity; lia.
+    + destruct (N.leb_spec y x), (N.leb_spec y z), (N.leb_spec x z); try reflexivity; lia.
+    + destruct (N.leb_spec y z), (N.leb_spec x z); try lia. rewrite IH. reflexivity.
+Qed.
+
+Lemma sortN_perm : forall l1 l2, Permutation l1 l2 -> sortN l1 = sortN l2.
+Proof.
+  intros l1 l2 P. induction P; cbn [sortN].
+  - reflexivity.
+  - rewrite IHP. reflexivity.
+  - apply insert_sorted_comm.
+  - congruence.
+Qed.
+
+Theorem members_order_independent : forall st ow oh,
+  Permutation ow (s_wep st) -> Permutation oh (s_hep st) ->
+  sortN (members_in ow oh) = sortN (members_in (s_wep st) (s_hep st)).
+Proof.
+  intros st ow oh Pw Ph. apply sortN_perm. unfold members_in.
+  apply Permutation_app; apply Permutation_flat_map; assumption.
 Qed.
